@@ -56,11 +56,11 @@ var propFree = hx.Prop[Case]{
 		"the ordered-mailbox model (porcupine, partitioned by mailbox, visit = one list observation per mailbox within its window); with " +
 		"a size limit: bytes <= limit at quiescence, no id lost without a possible cause, and a message that fits is retrievable after a " +
 		"purge of everything (no accounting drift); non-trivial = two operations on one mailbox overlap in time and one is a mutation",
-	Quick: 60, Thorough: 600,
+	Quick: 150, Thorough: 800,
 	Gen: func(t *rapid.T) Case {
-		c := Case{Backend: rapid.SampledFrom([]string{"mem", "mem", "file"}).Draw(t, "backend"), Cap: rapid.SampledFrom([]int{0, 0, 2}).Draw(t, "cap"), NBoxes: rapid.IntRange(1, 3).Draw(t, "nboxes")}
+		c := Case{Backend: rapid.SampledFrom([]string{"mem", "mem", "file"}).Draw(t, "backend"), Cap: rapid.SampledFrom([]int{0, 2, 2}).Draw(t, "cap"), NBoxes: rapid.IntRange(1, 3).Draw(t, "nboxes")}
 		if c.Backend == "mem" {
-			c.MaxKB = rapid.SampledFrom([]int{0, 0, 1}).Draw(t, "maxkb")
+			c.MaxKB = rapid.SampledFrom([]int{0, 1, 1}).Draw(t, "maxkb")
 		}
 		c.Clients = rapid.SliceOfN(rapid.SliceOfN(copGen, 3, 12), 2, 8).Draw(t, "clients")
 		return c
@@ -408,6 +408,13 @@ var propSched = hx.Prop[SCase]{
 		if c.Backend == "mem" {
 			c.MaxKB = rapid.SampledFrom([]int{0, 1, 1, 2}).Draw(t, "maxkb")
 		}
+		// with both limits on, the store's oldest messages fill mailbox 0 up to its cap: a delivery
+		// there must evict by cap while the size enforcer's next victim is in the same mailbox
+		if c.Cap > 0 && c.MaxKB > 0 {
+			for i := 0; i < c.Cap; i++ {
+				c.Prefix = append(c.Prefix, COp{K: "add", Box: 0, Size: 300})
+			}
+		}
 		// a few deliveries first so that removals, visits and evictions have something to work on
 		for i := 0; i < 3; i++ {
 			c.Prefix = append(c.Prefix, COp{K: "add", Box: i, Size: rapid.SampledFrom([]int{100, 400, 900}).Draw(t, "psize")})
@@ -432,9 +439,12 @@ var propSched = hx.Prop[SCase]{
 		c.Nth = rapid.IntRange(0, 1).Draw(t, "nth")
 		c.B = rapid.SliceOfN(rapid.Custom(func(t *rapid.T) COp {
 			op := copGen.Draw(t, "bop")
-			if rapid.IntRange(0, 2).Draw(t, "aim") == 0 {
+			switch rapid.IntRange(0, 3).Draw(t, "aim") {
+			case 0:
 				op.K = rapid.SampledFrom([]string{"remove-target", "purge-target", "add"}).Draw(t, "aimk")
 				op.Box = c.A.Box
+			case 1:
+				op.K, op.Box, op.Size = "add", 0, 100 // deliver into the mailbox holding the oldest messages
 			}
 			return op
 		}), 1, 4).Draw(t, "b")
